@@ -37,6 +37,12 @@ mod imp {
             ("Array1/Buf", catch(|| call_v1::<V, T, Array1<f64>, f64>(f, v, w, mp, Path::Buf).cells())),
             ("Float64Chunked/Ret", catch(|| call_v1::<V, T, Float64Chunked, Option<f64>>(f, v, w, mp, Path::Ret).cells())),
             ("Float64Chunked/Buf", catch(|| call_v1::<V, T, Float64Chunked, Option<f64>>(f, v, w, mp, Path::Buf).cells())),
+            // caller buffers in a non-canonical physical layout
+            ("VecDeque/Buf(wrapped ring, head 3)", catch(|| call_v1::<V, T, VecDeque<f64>, f64>(f, v, w, mp, Path::BufAlt(1)).cells())),
+            ("VecDeque/Buf(wrapped ring, head len-1)", catch(|| call_v1::<V, T, VecDeque<f64>, f64>(f, v, w, mp, Path::BufAlt(2)).cells())),
+            ("Array1/Buf(view, step 2)", catch(|| call_v1::<V, T, Array1<f64>, f64>(f, v, w, mp, Path::BufAlt(1)).cells())),
+            ("Array1/Buf(reversed view)", catch(|| call_v1::<V, T, Array1<f64>, f64>(f, v, w, mp, Path::BufAlt(2)).cells())),
+            ("Array1/Buf(view, step 3, offset 1)", catch(|| call_v1::<V, T, Array1<f64>, f64>(f, v, w, mp, Path::BufAlt(3)).cells())),
         ]
     }
     pub fn roll2_all_outputs<V, T>(f: R2, v: &V, second: &Vec<f64>, w: usize, mp: Option<usize>) -> Vec<(&'static str, Outcome<Vec<Cell>>)>
@@ -51,7 +57,115 @@ mod imp {
             ("Array1/Ret", catch(|| call_v2::<V, T, Vec<f64>, f64, Array1<f64>, f64>(f, v, second, w, mp, Path::Ret).cells())),
             ("Float64Chunked/Ret", catch(|| call_v2::<V, T, Vec<f64>, f64, Float64Chunked, Option<f64>>(f, v, second, w, mp, Path::Ret).cells())),
             ("Float64Chunked/Buf", catch(|| call_v2::<V, T, Vec<f64>, f64, Float64Chunked, Option<f64>>(f, v, second, w, mp, Path::Buf).cells())),
+            ("VecDeque/Buf(wrapped ring, head 3)", catch(|| call_v2::<V, T, Vec<f64>, f64, VecDeque<f64>, f64>(f, v, second, w, mp, Path::BufAlt(1)).cells())),
+            ("Array1/Buf(view, step 2)", catch(|| call_v2::<V, T, Vec<f64>, f64, Array1<f64>, f64>(f, v, second, w, mp, Path::BufAlt(1)).cells())),
+            ("Array1/Buf(reversed view)", catch(|| call_v2::<V, T, Vec<f64>, f64, Array1<f64>, f64>(f, v, second, w, mp, Path::BufAlt(2)).cells())),
         ]
+    }
+
+    // ---- user-function drivers and lazy results through every sink ----
+    use mc_adapt::outbuf::OutBuf;
+
+    macro_rules! sink {
+        ($O:ty, $U:ty, $path:expr, $len:expr, $fill:expr, $ret:expr, |$out:ident| $to:expr) => {
+            match $path {
+                Path::Ret => {
+                    let r: $O = $ret;
+                    r.cells()
+                }
+                Path::Buf => {
+                    let mut buf = <$O as Vec1<$U>>::uninit($len);
+                    {
+                        #[allow(unused_mut)]
+                        let mut $out = <$O as Vec1<$U>>::uninit_ref_mut(&mut buf);
+                        $to;
+                    }
+                    unsafe { buf.assume_init() }.cells()
+                }
+                Path::BufAlt(k) => {
+                    let fill = $fill;
+                    #[allow(unused_mut)]
+                    let vals = <$O as OutBuf<$U>>::alt_run($len, k, &fill, |mut $out| {
+                        $to;
+                    });
+                    <$O as Vec1<$U>>::collect_from_iter(vals.into_iter()).cells()
+                }
+            }
+        };
+    }
+
+    fn score<T: Elem>(items: &[T]) -> f64 {
+        let mut s = 0.5;
+        for t in items {
+            s = s * 3.0 + t.dec().num().unwrap_or(-7.0);
+        }
+        s
+    }
+
+    pub const SINK_ENTRIES: [&str; 5] = ["rolling_custom", "rolling_apply", "rolling2_custom", "vshift(1).write / collect", "rolling_apply_idx"];
+
+    fn sink_one<V, T, O, OT>(entry: usize, v: &V, w: usize, path: Path) -> Vec<Cell>
+    where
+        V: Vec1View<T> + SliceRead<T>,
+        T: Elem + IsNone + Clone + 'static,
+        O: Vec1<f64> + OutBuf<f64> + OutCells,
+        OT: Vec1<T> + OutBuf<T> + OutCells,
+    {
+        let len = v.len();
+        let other: Vec<f64> = (0..len).map(|i| (i * i) as f64).collect();
+        match entry {
+            0 => {
+                let f = |s: V::SliceOutput<'_>| score(&V::read_slice(&s));
+                sink!(O, f64, path, len, || -999.5, v.rolling_custom::<O, f64, _>(w, f, None).expect("no container"), |out| assert!(v.rolling_custom::<O, f64, _>(w, f, Some(out)).is_none()))
+            }
+            1 => {
+                let f = |rm: Option<T>, add: T| score(&[add]) + rm.map_or(-0.25, |r| 10.0 * score(&[r]));
+                sink!(O, f64, path, len, || -999.5, v.rolling_apply::<O, f64, _>(w, f, None).expect("no container"), |out| assert!(v.rolling_apply::<O, f64, _>(w, f, Some(out)).is_none()))
+            }
+            2 => {
+                let f = |a: V::SliceOutput<'_>, b: &[f64]| score(&V::read_slice(&a)) + score(b) / 4.0;
+                sink!(O, f64, path, len, || -999.5, v.rolling2_custom::<O, f64, Vec<f64>, f64, _>(&other, w, f, None).expect("no container"), |out| assert!(v.rolling2_custom::<O, f64, Vec<f64>, f64, _>(&other, w, f, Some(out)).is_none()))
+            }
+            3 => {
+                // a lazy mapping result: collected into the container, or written into the caller's buffer
+                let proto = if len > 0 { Some(unsafe { v.uget(0) }) } else { None };
+                sink!(OT, T, path, len, move || proto.clone().unwrap(), v.titer().vshift(w as i32 - 2, None).collect_trusted_vec1::<OT>(), |out| v.titer().vshift(w as i32 - 2, None).write(&mut out).unwrap())
+            }
+            _ => {
+                let f = |start: Option<usize>, end: usize, x: T| score(&[x]) + start.map_or(-0.25, |s| 10.0 * s as f64) + 1000.0 * end as f64;
+                sink!(O, f64, path, len, || -999.5, v.rolling_apply_idx::<O, f64, _>(w, f, None).expect("no container"), |out| assert!(v.rolling_apply_idx::<O, f64, _>(w, f, Some(out)).is_none()))
+            }
+        }
+    }
+
+    /// every driver entry x window into every sink: (entry, window, sink label, outcome)
+    pub fn sinks<V, T>(v: &V, ws: &[usize]) -> Vec<(usize, usize, &'static str, Outcome<Vec<Cell>>)>
+    where
+        V: Vec1View<T> + SliceRead<T>,
+        T: Elem + IsNone + Clone + 'static,
+    {
+        let mut out = vec![];
+        for e in 0..SINK_ENTRIES.len() {
+            for &w in ws {
+                if (e == 1 || e == 4) && w > v.len() {
+                    // the removed element / window start at the last position of a window longer than the
+                    // series is the explicit carve-out of C02: not demanded to agree here either
+                    continue;
+                }
+                out.push((e, w, "Vec/Ret", catch(|| sink_one::<V, T, Vec<f64>, Vec<T>>(e, v, w, Path::Ret))));
+                out.push((e, w, "Vec/Buf", catch(|| sink_one::<V, T, Vec<f64>, Vec<T>>(e, v, w, Path::Buf))));
+                out.push((e, w, "VecDeque/Ret", catch(|| sink_one::<V, T, VecDeque<f64>, VecDeque<T>>(e, v, w, Path::Ret))));
+                out.push((e, w, "VecDeque/Buf", catch(|| sink_one::<V, T, VecDeque<f64>, VecDeque<T>>(e, v, w, Path::Buf))));
+                out.push((e, w, "VecDeque/Buf(wrapped ring, head 3)", catch(|| sink_one::<V, T, VecDeque<f64>, VecDeque<T>>(e, v, w, Path::BufAlt(1)))));
+                out.push((e, w, "VecDeque/Buf(wrapped ring, head len-1)", catch(|| sink_one::<V, T, VecDeque<f64>, VecDeque<T>>(e, v, w, Path::BufAlt(2)))));
+                out.push((e, w, "Array1/Ret", catch(|| sink_one::<V, T, Array1<f64>, Array1<T>>(e, v, w, Path::Ret))));
+                out.push((e, w, "Array1/Buf", catch(|| sink_one::<V, T, Array1<f64>, Array1<T>>(e, v, w, Path::Buf))));
+                out.push((e, w, "Array1/Buf(view, step 2)", catch(|| sink_one::<V, T, Array1<f64>, Array1<T>>(e, v, w, Path::BufAlt(1)))));
+                out.push((e, w, "Array1/Buf(reversed view)", catch(|| sink_one::<V, T, Array1<f64>, Array1<T>>(e, v, w, Path::BufAlt(2)))));
+                out.push((e, w, "Array1/Buf(view, step 3, offset 1)", catch(|| sink_one::<V, T, Array1<f64>, Array1<T>>(e, v, w, Path::BufAlt(3)))));
+            }
+        }
+        out
     }
 
     /// aggregations through the container's own trusted iterator / view
@@ -398,6 +512,16 @@ struct Reference {
     maps: Vec<(MapOp, Outcome<Vec<Cell>>)>,
     aggs: Vec<(String, Outcome<Vec<Cell>>)>,
     quant: Vec<((u64, usize), Outcome<Cell>)>,
+    /// (driver entry, window) -> outcome of Vec -> Vec, returned
+    sinks: Vec<((usize, usize), Outcome<Vec<Cell>>)>,
+}
+
+fn sink_windows(len: usize) -> Vec<usize> {
+    if len > 8 {
+        vec![1, 3, 17, len + 1]
+    } else {
+        vec![1, 2, len + 1]
+    }
 }
 
 fn params(len: usize) -> Vec<(usize, Option<usize>)> {
@@ -516,6 +640,15 @@ macro_rules! visit_body {
                 }
             }
         }
+        // user-function drivers and lazy results into every sink
+        for (e, w, oname, got) in sinks::<V, $T>($v, &sink_windows(len)) {
+            $self.ctx.eval(fam, outcome_hash(&got));
+            $self.ctx.transitions += 1;
+            let refo = &$self.reference.sinks.iter().find(|(k, _)| *k == (e, w)).expect("reference sink").1;
+            if !same_outcome(refo, &got) {
+                $self.report(SINK_ENTRIES[e].to_string(), $name, oname, json!({"w": w}), refo, &got);
+            }
+        }
         // aggregations and order statistics
         let got_aggs = aggs::<V, $T>($v);
         for ((n1, refo), (_n2, got)) in $self.reference.aggs.iter().zip(&got_aggs) {
@@ -573,7 +706,12 @@ where
 {
     let v: Vec<T> = enc_vec(x);
     let len = x.len();
-    let mut r = Reference { roll1: vec![], roll2: vec![], maps: vec![], aggs: vec![], quant: vec![] };
+    let mut r = Reference { roll1: vec![], roll2: vec![], maps: vec![], aggs: vec![], quant: vec![], sinks: vec![] };
+    for (e, w, oname, o) in sinks::<Vec<T>, T>(&v, &sink_windows(len)) {
+        if oname == "Vec/Ret" {
+            r.sinks.push(((e, w), o));
+        }
+    }
     for (w, mp) in params(len) {
         for (fi, f) in roll_fns().into_iter().enumerate() {
             if !rollcheck::cfg_cmp(f, len, w, mp) {
